@@ -144,6 +144,45 @@ def _char_lit_end(src, i):
     return -1
 
 
+def desugar_while_let(text: str, rwlog) -> str:
+    """R5e: `while let PAT = EXPR { BODY }` -> `loop { match EXPR { PAT => { BODY } _ => { break; } } }` (the desugaring the Rust
+    reference gives), so that the fact established by the last, failing evaluation of EXPR is available after the loop."""
+    n = 0
+    while True:
+        mm = mask(text)
+        mo = re.search(r'\bwhile\s+let\s+', mm)
+        if not mo:
+            break
+        # find the `=` that ends the pattern (depth 0) and the `{` that opens the body (depth 0 after the expression)
+        i = mo.end(); depth = 0; eq = None
+        while i < len(mm):
+            c = mm[i]
+            if c in '([{<' and not (c == '<' and False): depth += (c != '<')
+            elif c in ')]}': depth -= 1
+            elif c == '=' and depth == 0 and mm[i + 1] != '=' and mm[i - 1] not in '=!<>':
+                eq = i; break
+            i += 1
+        if eq is None:
+            break
+        j = eq + 1; depth = 0; ob = None
+        while j < len(mm):
+            c = mm[j]
+            if c in '([': depth += 1
+            elif c in ')]': depth -= 1
+            elif c == '{' and depth == 0:
+                ob = j; break
+            j += 1
+        if ob is None:
+            break
+        cb = match_brace(mm, ob)
+        pat = text[mo.end():eq].strip(); expr = text[eq + 1:ob].strip(); body = text[ob + 1:cb]
+        new = f"loop {{ match {expr} {{ {pat} => {{{body}}} _ => {{ break; }} }} }}"
+        text = text[:mo.start()] + new + text[cb + 1:]
+        n += 1
+    if n:
+        rwlog.append(dict(rule='R5e', what='`while let P = E { .. }` desugared to `loop { match E { P => { .. } _ => break } }`', applied=n))
+    return text
+
 def desugar_enumerate(text: str, rwlog) -> str:
     """R5d: `for (i, x) in E.iter().enumerate() { BODY }` -> `let mut i: usize = 0; while i < E.len() { let x = &E[i]; { BODY } i += 1; }`
     (the meaning of enumerate over a slice iterator). Refused (left as is, so Verus reports the unsupported construct and the unit is
@@ -787,6 +826,8 @@ def _emit_fn(g, meta, tmpl, rel, src, m, ctx, name, kv, subs):
             text = apply_rw(text, rule, rx, repl, mn, rwlog)
     if kv.get('enumerate') == '1':
         text = desugar_enumerate(text, rwlog)
+    if kv.get('whilelet') == '1':
+        text = desugar_while_let(text, rwlog)
     if kv.get('attrs') != 'keep':
         text = strip_attrs(text, rwlog)
     if INLINE['names']:
